@@ -86,6 +86,8 @@ class SpecMixin:
         if fn == "same_class":
             x, y = self.sv(a[0], ctx).t, self.sv(a[1], ctx).t
             return smt.CLS[Val.r(x)] == smt.CLS[Val.r(y)]
+        if fn == "defined":
+            return z3.BoolVal(a[0].value in ctx.env or a[0].value in ctx.names)
         if fn in C.SPECS:
             return self.s_specfn_bool(C.SPECS[fn], a, ctx)
         if fn in C.UNINTERPRETED and C.UNINTERPRETED[fn][1] == "bool":
@@ -425,6 +427,13 @@ class SpecMixin:
                 sub = SpecCtx(ctx.old, old_names, ctx.env, ctx.old, ctx.extra)
                 sub.in_old = True
                 return self.sv(a[0], sub)
+            if fn == "local_or":
+                # local_or('x', default): the final local x where this path assigned it, else the default (for
+                # postconditions over locals that only some paths define; pair with defined('x'))
+                nm = a[0].value
+                if nm in ctx.env or nm in ctx.names:
+                    return self.s_name(nm, ctx)
+                return self.sv(a[1], ctx)
             if fn == "len":
                 v = self.sv(a[0], ctx)
                 if v.meta and v.meta[0] == "tuple":
